@@ -750,6 +750,15 @@ example : ([OpF.byte 40, .byte 35, .insert (.kw [97]) [97], .byte 10, .byte 34, 
 example : (insertM (fun _ => none) (feedM (fun _ => none) MRun.init [40, 35, 32]).m (.kw [97]) [97]).1.fault = false := by decide +kernel
 example : (insertM (fun _ => none) (feedM (fun _ => none) MRun.init [40, 34, 97]).m .nil [110, 105, 108]).1.k = ⟨8, 6, 0⟩ := by decide +kernel
 
+/-- `stringend`'s in-place rewrite: the second pass (`*w++ = *r++`, indentation skipped on the read side only) never produces more bytes than
+    it has read -- `w ≤ r`, every write lands on a byte already read inside `[bufstart, end)` -- and the text finally handed to
+    `janet_string` / `janet_buffer_push_bytes` (after the EOL strips) is no longer than the scratch contents -/
+theorem stringend_rewrite_fits (fuel ind col : Nat) (buf : List B) :
+    (reindent fuel ind buf).length ≤ buf.length ∧ (dedent col buf).length ≤ buf.length :=
+  ⟨reindent_length_le fuel ind buf, dedent_length_le col buf⟩
+
+example : dedent 2 [10, 32, 32, 97, 10, 32, 32, 13, 10, 32, 32, 98, 10] = [97, 10, 13, 10, 98] := by decide
+
 -- non-vacuity: a run that grows all three blocks, pops containers, dedents a long string and reports an error; and the checks are live
 example : (finishM (fun _ => none) (feedM (fun _ => none) MRun.init
     [40, 64, 91, 34, 97, 92, 120, 52, 49, 34, 32, 96, 96, 10, 32, 120, 96, 96, 93, 32, 39, 98, 41, 32, 41])).m.fault = false := by decide +kernel
